@@ -232,9 +232,10 @@ pub struct RootBody<'gc> {
     pub slots: Vec<Edge<'gc>>,
     pub fp: FaultPoint,
     pub weak: Vec<WEdge<'gc>>,
-    /// the root's own DynamicRootSet (set index 0 of the arena)
-    pub set: DynamicRootSet<'gc>,
-    pub zst: gc_arena::zst_cache::ZstCache<'gc, 16>,
+    /// the root's own DynamicRootSet (set index 0 of the arena); None in a "bare" arena, which
+    /// can become completely empty
+    pub set: Option<DynamicRootSet<'gc>>,
+    pub zst: Option<gc_arena::zst_cache::ZstCache<'gc, 16>>,
 }
 
 /// Two root types so that `map_root` / `try_map_root` really change the root type.
